@@ -1,6 +1,7 @@
 import UF.Compose2.ShortcutMask
 import UF.Compose2.ParsePattern
 import UF.Compose2.RegexShortcutSound
+import UF.Proofs.RegexQuirkLits
 import UF.Props.C05
 import UF.Props.C03
 import UF.Model.RequestNew
@@ -148,9 +149,9 @@ theorem c05_full_regex (ext : Ext) (r : NetRule) (q : Request) (parts : List Byt
         simp only [parseRE, hci, Bool.false_eq_true, if_false] at hparse
         refine ⟨r0, ?_, hs.symm⟩
         intro t' ht'
-        rw [hparse] at ht'
-        cases ht'
-        exact litsCovered_refl r0
+        -- `r0` is Go's tree (`goTree`) of the textbook tree `t'`: it requires what `t'` requires
+        rw [ht', Option.bind_some] at hparse
+        exact litsCovered_goTree hparse
 
 /-- C05 from the rule TEXT for mask rules — no oracle and no hypothesis about the rule record: whatever
     `NewNetworkRule` accepts with a pattern that is not a `/regex/` matches the same requests with and
@@ -186,49 +187,45 @@ theorem c05_text_full_regex (px : E.ParseExt) (t : Bytes) (id : Int) (r : NetRul
 /-- `/regex/` rules, from the TEXT: the shortcut computed by the text-level model of
     `findRegexpShortcut` (the heuristics' candidates filtered against the literals Go's parse tree
     requires — adjacent literals merged, common prefixes of alternations factored) is a factor of
-    every lower-cased target the pattern model accepts, with or without `$match-case`. -/
+    every lower-cased target the pattern model accepts, with or without `$match-case`.
+    (Group P3: for `$match-case` rules `modelPat` searches GO's tree of the text — `goTree`, the written
+    tree up to the fold flags `parser.factor` mixes up — and `goReq` factors with Go's flag-blind
+    `Equal`; the statement covers every assignment of fold flags, `FoldRel`.  `modelPat` and
+    `modelRegexpShortcut` answer `none`, and nothing is claimed, for the expressions listed in
+    UF/Compose2/Pat.lean and UF/Compose2/RegexShortcut.lean.) -/
 theorem c05_regex_text (p : Bytes) (mc : Bool) (u sc : Bytes) (hre : UF.isRegexPattern p = true)
     (hsc : modelRegexpShortcut p = some sc) (h : modelPat p mc u = some true) :
     hasSub (toLower u) (loadShortcut sc) = true := by
   rcases loadShortcut_cases sc with h0 | h0 <;> rw [h0]
   · exact hasSub_nil _
-  · unfold modelRegexpShortcut at hsc
-    simp only at hsc
-    split at hsc
-    · cases hsc
-    · split at hsc
-      · cases hsc; exact hasSub_nil _
-      · rename_i hq
-        cases hp : parseCore ((p.drop 1).dropLast) with
-        | none => rw [hp] at hsc; cases hsc
-        | some tree =>
-          rw [hp] at hsc
-          simp only [Option.some.injEq] at hsc
-          rcases pickLongest_sound (regexParts ((p.drop 1).dropLast)) (goReq tree) with he | ⟨l, hl, hsub⟩
-          · rw [← hsc, he]; exact hasSub_nil _
-          · rw [hsc] at hsub
-            obtain ⟨r0, hparse, hs, _⟩ := modelPat_regex_some hre h
-            have hnoci : hasPrefix ((p.drop 1).dropLast) ciPrefix = false := by
-              cases hc : hasPrefix ((p.drop 1).dropLast) ciPrefix with
-              | false => rfl
-              | true =>
-                exfalso
-                obtain ⟨z, hz⟩ := (hasPrefix_iff _ _).1 hc
-                apply hq
-                rw [hz]
-                simp [ciPrefix]
-            have hrel : FoldRel tree r0 := by
-              unfold regexRuleText at hparse
-              cases mc with
-              | false =>
-                simp only [Bool.false_eq_true, if_false, parseRE_ci, hp, Option.map_some,
-                  Option.some.injEq] at hparse
-                rw [← hparse]; exact FoldRel.foldCase tree
-              | true =>
-                simp only [if_true, parseRE, hnoci, Bool.false_eq_true, if_false, hp,
-                  Option.some.injEq] at hparse
-                rw [← hparse]; exact FoldRel.refl tree
-            exact hasSub_trans (goReq_search hrel hs.symm l hl) hsub
+  · rcases modelRegexpShortcut_some hsc with rfl | ⟨hq, tree, hp, hsc⟩
+    · exact hasSub_nil _
+    · rcases pickLongest_sound (regexParts ((p.drop 1).dropLast)) (goReq tree) with he | ⟨l, hl, hsub⟩
+      · rw [hsc, he]; exact hasSub_nil _
+      · rw [← hsc] at hsub
+        obtain ⟨r0, hparse, hs, _⟩ := modelPat_regex_some hre h
+        have hnoci : hasPrefix ((p.drop 1).dropLast) ciPrefix = false := by
+          cases hc : hasPrefix ((p.drop 1).dropLast) ciPrefix with
+          | false => rfl
+          | true =>
+            exfalso
+            obtain ⟨z, hz⟩ := (hasPrefix_iff _ _).1 hc
+            rw [hz] at hq
+            simp [ciPrefix] at hq
+        have hrel : FoldRel tree r0 := by
+          unfold regexRuleText at hparse
+          cases mc with
+          | false =>
+            simp only [Bool.false_eq_true, if_false, parseRE_ci, hp, Option.map_some,
+              Option.some.injEq] at hparse
+            rw [← hparse]; exact FoldRel.foldCase tree
+          | true =>
+            -- `$match-case`: the compiled expression is Go's tree of the text, the textbook
+            -- tree up to the fold flags `parser.factor` mixes up (group P3)
+            simp only [if_true, parseRE, hnoci, Bool.false_eq_true, if_false, hp,
+              Option.bind_some] at hparse
+            exact FoldRel.goTree hparse
+        exact hasSub_trans (goReq_search hrel hs.symm l hl) hsub
 
 /-- C05 from the rule TEXT for `/regex/` rules over the complete model (`parseNetRuleM`: no oracle but
     `netip`): whenever the shortcut model answers for the rule's pattern, `Match` is unchanged when the
